@@ -133,9 +133,11 @@ class Module:
                     if isinstance(t, ast.Name) and t.id == attr:
                         return True
             if isinstance(st, ast.ImportFrom):
+                if st.module is None:
+                    continue        # `from . import x` imports the sub-module x itself
                 for a in st.names:
                     if (a.asname or a.name) == attr:
-                        # re-export of a name: counts as defined unless it is a module
+                        # re-export of a name: counts as defined
                         return True
         return False
 
